@@ -712,10 +712,17 @@ impl<'a, H: HashAlgorithm> Exec<'a, H> {
     /// What rollback(1..=retained) would restore, probed on copies of the directory.
     pub fn check_rollback_history(&mut self, prop: &str) -> R<()> {
         if !self.opts.rollback { return Ok(()); }
-        for n in 1..=self.model.retained {
+        // every n while the window is small; with a long window the ends and the middle (each
+        // probe is a copy of the directory, an open and a rollback)
+        let r = self.model.retained;
+        let ns: Vec<usize> = if r <= 6 { (1..=r).collect() } else { vec![1, 2, 3, r / 2, r - 1, r] };
+        for n in ns {
             let img = self.disk.fork_live_copy(&self.dir, &format!("rbh{}-{}", self.step, n));
             let res = (|| -> R<()> {
-                let twin = Nomt::<H>::open(to_options(&img, &self.opts)).map_err(|e| self.v(prop, "twin-open-failed", format!("copy of the directory does not open: {e:#}")))?;
+                // the twin only probes what the directory holds: a cheap configuration (few tasks)
+                let mut topts = self.opts.clone();
+                topts.commit_concurrency = topts.commit_concurrency.min(2); topts.io_workers = 1; topts.warm_up = false;
+                let twin = Nomt::<H>::open(to_options(&img, &topts)).map_err(|e| self.v(prop, "twin-open-failed", format!("copy of the directory does not open: {e:#}")))?;
                 twin.rollback(n).map_err(|e| self.v(prop, "rollback-history", format!("rollback({n}) on a copy failed although {} deltas must be retained: {e:#}", self.model.retained)))?;
                 let want = self.model.back(n).unwrap().clone();
                 let wt = ref_trie::<H>(&want, &mut self.hc).hash();
